@@ -6,24 +6,7 @@ import (
 
 // TS 24.501 9.11.3.35, TS 24.008 10.5.3.5a
 func FullNetworkNameToNas(name string) (fullNetworkName nasType.FullNameForNetwork) {
-	asciiArray := []byte(name)
-	numOfSpareBits := 8 - ((7 * len(asciiArray)) % 8)
-
-	var buf []uint8
-	idx := uint8(7)
-	for i, char := range asciiArray {
-		if i == 0 {
-			buf = append(buf, char)
-		} else {
-			buf[i-1] = (buf[i-1] & nasType.GetBitMask(idx+1, 0)) + char<<idx
-			buf = append(buf, char>>(8-idx))
-			idx--
-			// if idx overflow, it will round to max(uint8) == 255 == ^uint8(0)
-			if idx == ^uint8(0) {
-				idx = 7
-			}
-		}
-	}
+	buf, numOfSpareBits := packGsm7bit(name)
 
 	fullNetworkName.SetLen(uint8(1 + len(buf)))
 	fullNetworkName.SetCodingScheme(0)
@@ -35,24 +18,7 @@ func FullNetworkNameToNas(name string) (fullNetworkName nasType.FullNameForNetwo
 }
 
 func ShortNetworkNameToNas(name string) (shortNetworkName nasType.ShortNameForNetwork) {
-	asciiArray := []byte(name)
-	numOfSpareBits := 8 - ((7 * len(asciiArray)) % 8)
-
-	var buf []uint8
-	idx := uint8(7)
-	for i, char := range asciiArray {
-		if i == 0 {
-			buf = append(buf, char)
-		} else {
-			buf[i-1] = (buf[i-1] & nasType.GetBitMask(idx+1, 0)) + char<<idx
-			buf = append(buf, char>>(8-idx))
-			idx--
-			// if idx overflow, it will round to max(uint8) == 255 == ^uint8(0)
-			if idx == ^uint8(0) {
-				idx = 7
-			}
-		}
-	}
+	buf, numOfSpareBits := packGsm7bit(name)
 
 	shortNetworkName.SetLen(uint8(1 + len(buf)))
 	shortNetworkName.SetCodingScheme(0)
@@ -61,4 +27,23 @@ func ShortNetworkNameToNas(name string) (shortNetworkName nasType.ShortNameForNe
 	shortNetworkName.SetNumberOfSpareBitsInLastOctet(uint8(numOfSpareBits))
 	shortNetworkName.SetTextString(buf)
 	return
+}
+
+// packGsm7bit packs the characters of name as GSM 7-bit default alphabet septets (TS 23.038 6.1.2.1): septet t
+// occupies bits 7t..7t+6 of the octet string read least significant bit first. It returns the packed octets and
+// the number of spare bits in the last octet.
+func packGsm7bit(name string) (buf []uint8, numOfSpareBits int) {
+	asciiArray := []byte(name)
+	buf = make([]uint8, (7*len(asciiArray)+7)/8)
+	for i, char := range asciiArray {
+		septet := char & 0x7f
+		pos := 7 * i
+		shift := uint(pos % 8)
+		buf[pos/8] |= septet << shift
+		if shift > 1 {
+			buf[pos/8+1] |= septet >> (8 - shift)
+		}
+	}
+	numOfSpareBits = (8 - (7*len(asciiArray))%8) % 8
+	return buf, numOfSpareBits
 }
